@@ -7,9 +7,11 @@ pub mod c01;
 pub mod c06;
 pub mod c12;
 pub mod c13;
+pub mod c14;
 pub mod c15;
 pub mod c16;
 pub mod c17;
+pub mod c18;
 pub mod c19;
 pub mod c20;
 pub mod jobs;
@@ -32,9 +34,11 @@ pub fn all() -> Vec<CheckDef> {
     v.push(c06::def());
     v.push(c12::def());
     v.push(c13::def());
+    v.push(c14::def());
     v.push(c15::def());
     v.push(c16::def());
     v.push(c17::def());
+    v.push(c18::def());
     v.push(c19::def());
     v.push(c20::def());
     v
